@@ -2,14 +2,15 @@
 from __future__ import annotations
 
 import translate.expr_tables as tr_expr
+import translate.num_tests as tr_num
 import asyncio
 
 from harness import core, exprcommon as X
 from harness.core import Atom
 
 ID = "C02"
-LEAN_MODULES = ["JinjaV.Props.C02"]
-GEN = [tr_expr.gen]
+LEAN_MODULES = ["JinjaV.Props.C02", "JinjaV.Props.C02Num"]
+GEN = [tr_expr.gen, tr_num.gen]
 LEVEL = "proof"
 TRUSTED = [
     "Model/Expr.lean: hand model of Python operator semantics on the modelled value universe (None, bool, int, str, Markup, "
@@ -20,6 +21,9 @@ TRUSTED = [
     "the expression parser itself is not modelled: its precedence chain is READ from parser.py (Gen/ExprTables.parserChain) and "
     "proved equal to the documented chain by decide",
     "floats, keyword arguments, *args/**kwargs, string methods and most filters are outside the value universe (oom, counted)",
+    "Model/NumTests.lean: numbers as rationals over a common denominator; Python's float `%` on dyadic rationals of moderate "
+    "size is assumed exact and floored like the int one (validated by the number-tests pass on ints, dyadic floats and "
+    "Fractions; the pass's oracle is a transcription of the right-hand sides of Props/C02Num.lean with Python Fractions)",
 ]
 ASSUMPTIONS = ["CPython evaluates the generated Python expression forms as the model's evaluator does (validated, not proved)"]
 CLAIM = dict(
@@ -119,6 +123,8 @@ def run(ctx, res):
     ce_checked = compile_expression_pass(ctx, res, jinja2, trees, srcs, rng)
     # 4. every spelling of one call passes the same arguments -------------------------------------------
     ce_checked += call_spelling_pass(ctx, res, jinja2, rng)
+    # 5. the numeric tests on ints, exact floats and Fractions mean what Props/C02Num.lean proves about their bodies ------
+    ce_checked += number_tests_pass(ctx, res, jinja2, rng)
     res.coverage.update({
         "evaluations": evaluations + ce_checked,
         "distinct_nontrivial": len(distinct),
@@ -202,6 +208,97 @@ def call_spelling_pass(ctx, res, jinja2, rng):
     return n
 
 
+def number_tests_pass(ctx, res, jinja2, rng):
+    """`odd`, `even`, `divisibleby` on every kind of exact number.  Props/C02Num.lean proves, about the bodies READ from
+    tests.py, that odd/even hold exactly for odd/even INTEGERS (2.5 is neither) and divisibleby exactly for integer
+    multiples (zero divisor: ZeroDivisionError); here the implementation is run on ints, bools, dyadic floats and Fractions
+    through the test registry, templates (context value and literal in the source), select/reject and compile_expression,
+    and compared with those right-hand sides computed with exact Fractions."""
+    from fractions import Fraction
+    from jinja2.sandbox import SandboxedEnvironment
+
+    def num(n, k, kind):
+        if kind == "fraction":
+            return Fraction(n, 2 ** k)
+        if k == 0 and kind == "int":
+            return n
+        return n / 2 ** k          # exact: |n| < 2**40, k <= 6
+
+    def spec(name, x, y):
+        fx = Fraction(x)
+        if name == "odd":
+            return ("ok", fx.denominator == 1 and fx.numerator % 2 == 1)
+        if name == "even":
+            return ("ok", fx.denominator == 1 and fx.numerator % 2 == 0)
+        fy = Fraction(y)
+        if fy == 0:
+            return ("err", "ZeroDivisionError")
+        return ("ok", (fx / fy).denominator == 1)
+
+    def lit(x):
+        """source spelling of a number (None when it has none: Fractions)"""
+        if isinstance(x, Fraction):
+            return None
+        r = repr(x)
+        return None if "e" in r or "inf" in r or "nan" in r else (f"({r})" if r.startswith("-") else r)
+
+    envs = [("default", jinja2.Environment()), ("async", jinja2.Environment(enable_async=True)),
+            ("sandboxed", SandboxedEnvironment()), ("unoptimized", jinja2.Environment(optimized=False))]
+    small = [0, 1, 2, 3, 4, 5, 7, 8, 10, 15, -1, -2, -3, -6, -7, 12, 100, 2 ** 33 + 1, -(2 ** 35)]
+    cases = []
+    for n in small:
+        for k in (0, 1, 2, 3):
+            for kind in ("int", "float", "fraction"):
+                cases.append(num(n, k, kind))
+    cases += [True, False]
+    for _ in range(ctx.pick(60, 600)):
+        cases.append(num(rng.randrange(-2 ** 20, 2 ** 20), rng.choice([0, 0, 1, 2, 6]), rng.choice(["int", "float", "fraction"])))
+    divisors = [1, 2, 3, -2, 0, 0.5, 2.5, -1.5, 0.0, 4.0, Fraction(1, 2), Fraction(5, 2), True]
+    n = 0
+
+    def outcome(f):
+        try:
+            return ("ok", f())
+        except Exception as e:  # noqa
+            return ("err", type(e).__name__)
+
+    def check(route, name, x, y, got, want):
+        if got != want:
+            arg = "" if name != "divisibleby" else f"({y!r})"
+            res.violate(f"C02:number-test:{name}:{route.split(':')[-1]}",
+                        f"`{x!r} is {name}{arg}` via {route} gives {got!r}; documented (Props/C02Num: odd/even hold exactly for "
+                        f"odd/even integers, divisibleby for integer multiples) is {want!r}",
+                        {"route": route, "test": name, "value": repr(x), "num": repr(y)})
+
+    def render(env, src, **data):
+        t = env.from_string(src)
+        return asyncio.run(t.render_async(**data)) if env.is_async else t.render(**data)
+
+    for x in cases:
+        for name in ("odd", "even", "divisibleby"):
+            ys = [None] if name != "divisibleby" else (divisors if not ctx.quick else rng.sample(divisors, 5))
+            for y in ys:
+                want = spec(name, x, y)
+                wtxt = (want[0], str(want[1])) if want[0] == "ok" else want
+                args = () if y is None else (y,)
+                for ename, env in envs:
+                    n += 1
+                    check(f"{ename}:registry", name, x, y, outcome(lambda: env.tests[name](x, *args)), want)
+                    call = name if y is None else f"{name}(y)"
+                    check(f"{ename}:template", name, x, y, outcome(lambda: render(env, "{{ x is " + call + " }}", x=x, y=y)), wtxt)
+                    lx, ly = lit(x), (None if y is None else lit(y))
+                    if lx is not None and (y is None or ly is not None) and not isinstance(x, bool) and not isinstance(y, bool):
+                        src = "{{ " + lx + " is " + (name if y is None else f"{name}({ly})") + " }}"
+                        got = outcome(lambda: render(env, src))
+                        check(f"{ename}:literal", name, x, y, got, wtxt)
+                    if y is None:
+                        sel = outcome(lambda: render(env, "{{ [x]|select('" + name + "')|list|length }}|{{ [x]|reject('" + name + "')|list|length }}", x=x))
+                        check(f"{ename}:select", name, x, y, sel, ("ok", "1|0" if want[1] else "0|1"))
+                    if not env.is_async:
+                        check(f"{ename}:compile_expression", name, x, y, outcome(lambda: env.compile_expression("x is " + call)(x=x, y=y)), want)
+    return n
+
+
 def compile_expression_pass(ctx, res, jinja2, trees, srcs, rng):
     """compile_expression(src)(**data) must be the value itself (not its text)"""
     from jinja2.sandbox import SandboxedEnvironment
@@ -262,6 +359,14 @@ def replay(ctx, case):
     jinja2 = core.import_jinja()
     c = case["case"]
     env = jinja2.Environment()
+    if "test" in c and "value" in c:          # number-tests pass: values are reprs of int / float / Fraction / bool
+        from fractions import Fraction
+        x = eval(c["value"], {"Fraction": Fraction})
+        args = () if c["num"] == "None" else (eval(c["num"], {"Fraction": Fraction}),)
+        try:
+            return {"registry": repr(env.tests[c["test"]](x, *args))}
+        except Exception as e:  # noqa
+            return {"registry": type(e).__name__}
     try:
         return {"parsed": core.sx(X.parse_expr(jinja2, env, c["src"]))}
     except Exception as e:  # noqa
